@@ -95,6 +95,42 @@ fn random_basic(rng: &mut Rng, keys: &[KeyCode]) -> Layout {
   l
 }
 
+// Pairs of different key sequences (2 or 3 keys) whose names, written one after the other, give the same text.
+pub fn name_twins(keys: &[KeyCode]) -> Vec<(Vec<KeyCode>, Vec<KeyCode>)> {
+  use std::collections::HashMap;
+  let names: Vec<String> = keys.iter().map(|k| key_name(*k)).collect();
+  let mut by_text: HashMap<String, Vec<Vec<KeyCode>>> = HashMap::new();
+  for (i, a) in names.iter().enumerate() { for (j, b) in names.iter().enumerate() {
+    if i == j { continue; }
+    by_text.entry(format!("{}{}", a, b)).or_insert_with(Vec::new).push(vec![keys[i], keys[j]]);
+  } }
+  // a name that is itself two names run together: [.., AB, ..] against [.., A, B, ..]
+  let index: HashMap<&str, usize> = names.iter().enumerate().map(|(i, n)| (n.as_str(), i)).collect();
+  let mut splits: Vec<(usize, usize, usize)> = vec![];
+  for (i, n) in names.iter().enumerate() {
+    for cut in 1..n.len() {
+      if !n.is_char_boundary(cut) { continue; }
+      if let (Some(&a), Some(&b)) = (index.get(&n[..cut]), index.get(&n[cut..])) { if a != b { splits.push((i, a, b)); } }
+    }
+  }
+  let mut res: Vec<(Vec<KeyCode>, Vec<KeyCode>)> = vec![];
+  let mut texts: Vec<&String> = by_text.keys().collect();
+  texts.sort();
+  for t in texts {
+    let v = &by_text[t];
+    for i in 0..v.len() { for j in (i + 1)..v.len() { res.push((v[i].clone(), v[j].clone())); } }
+  }
+  for (n, a, b) in &splits {
+    // with one more key on either side, so that both chords have at least two keys
+    for (c, _) in names.iter().enumerate().step_by(37) {
+      if c == *n || c == *a || c == *b { continue; }
+      res.push((vec![keys[c], keys[*n]], vec![keys[c], keys[*a], keys[*b]]));
+      res.push((vec![keys[*n], keys[c]], vec![keys[*a], keys[*b], keys[c]]));
+    }
+  }
+  res
+}
+
 fn random_basic_plain(rng: &mut Rng, keys: &[KeyCode]) -> Layout {
   let n = rng.range(0, 6);
   let mut ms = vec![];
@@ -176,6 +212,32 @@ pub fn run(opts: &Opts) -> i32 {
     let l = random_basic(&mut rng, &keys);
     out.nontrivial(hash_str(&format!("{:?}", l.mappings)));
     check(&l, "random_basic_layouts", &env, &mut out);
+  }
+  // (4b) chords whose key NAMES run together to the same text ([HOME,PAGEUP] / [HOMEPAGE,UP], [F1,2] / [F,12]...): the saved
+  // file spells keys by name, so whatever the writer or the reader does with a chord as a whole (joining, caching,
+  // de-duplicating by a textual key) must still tell such chords apart.  All such pairs among the key names, each in every
+  // role (trigger, output, repeat keys, across roles), in both orders.
+  let twins = name_twins(&keys);
+  out.notes.insert("name_concatenation_twins".to_string(), json!(twins.len()));
+  for (i, (a, b)) in twins.iter().enumerate() {
+    if (i as u64) % opts.nshards != opts.shard { continue; }
+    let filler = |n: usize| -> KeyCode { keys[(i * 7 + n * 13) % keys.len()] };
+    for (x, y) in [(a, b), (b, a)] {
+      let sp = |k: &Vec<KeyCode>| Repeat::Special { keys: k.clone(), delay_ms: 180, interval_ms: 30 };
+      let ls = vec![
+        Layout { mappings: vec![Mapping { from: vec![filler(1)], to: x.clone(), repeat: Repeat::Normal, absorbing: vec![] }, Mapping { from: vec![filler(2)], to: y.clone(), repeat: Repeat::Normal, absorbing: vec![] }] },
+        Layout { mappings: vec![Mapping { from: x.clone(), to: vec![filler(1)], repeat: Repeat::Normal, absorbing: vec![] }, Mapping { from: y.clone(), to: vec![filler(2)], repeat: Repeat::Disabled, absorbing: vec![] }] },
+        Layout { mappings: vec![Mapping { from: vec![filler(1)], to: vec![filler(3)], repeat: sp(x), absorbing: vec![] }, Mapping { from: vec![filler(2)], to: vec![], repeat: sp(y), absorbing: vec![] }] },
+        Layout { mappings: vec![Mapping { from: vec![filler(1)], to: x.clone(), repeat: sp(y), absorbing: vec![] }] },
+        Layout { mappings: vec![Mapping { from: x.clone(), to: y.clone(), repeat: Repeat::Normal, absorbing: vec![] }, Mapping { from: y.clone(), to: x.clone(), repeat: Repeat::Normal, absorbing: vec![] }] },
+        Layout { mappings: vec![Mapping { from: x.clone(), to: vec![], repeat: Repeat::Normal, absorbing: x[..x.len() - 1].to_vec() }, Mapping { from: y.clone(), to: vec![], repeat: Repeat::Normal, absorbing: y[..y.len() - 1].to_vec() }] },
+      ];
+      for l in ls {
+        if l.mappings.iter().any(|m| has_duplicate(&m.from) || has_duplicate(&m.to)) { continue; }
+        out.nontrivial(hash_str(&format!("{:?}", l.mappings)));
+        check(&l, "name_twin_layouts", &env, &mut out);
+      }
+    }
   }
   // (5) very large layouts: thousands of mappings, a saved file of several megabytes
   let n_big = opts.num("big", if thorough { 6 } else { 2 });
